@@ -154,6 +154,7 @@ def get_sympy_gates():
     GATE_SYMPY["CS"] = controlled_gate(SYMPYGate.PhaseGate)
     GATE_SYMPY["CT"] = controlled_gate(SYMPYGate.TGate)
     GATE_SYMPY["CPHASE"] = controlled_gate(p_gate)
+    GATE_SYMPY["MCX"] = controlled_gate(SYMPYGate.XGate)
 
     return GATE_SYMPY
 
@@ -188,12 +189,16 @@ def translate_c_to_sympy(source_circuit):
             target_circuit *= GATE_SYMPY[gate.name](gate.target[0])
         elif gate.name in {"PHASE", "RX", "RY", "RZ"}:
             target_circuit *= GATE_SYMPY[gate.name](gate.target[0], gate.parameter)
+        elif gate.name in {"CNOT", "CH", "CX", "CY", "CZ", "CS", "CT"} and len(gate.control) > 1:
+            name = "MCX" if gate.name in {"CNOT", "CX"} else gate.name
+            target_circuit *= GATE_SYMPY[name](tuple(gate.control), gate.target[0])
         elif gate.name in {"CNOT", "CH", "CX", "CY", "CZ", "CS", "CT"}:
             target_circuit *= GATE_SYMPY[gate.name](gate.control[0], gate.target[0])
         elif gate.name in {"SWAP"}:
             target_circuit *= GATE_SYMPY[gate.name](gate.target[0], gate.target[1])
         elif gate.name in {"CRX", "CRY", "CRZ", "CPHASE"}:
-            target_circuit *= GATE_SYMPY[gate.name](gate.control[0], gate.target[0], gate.parameter)
+            control = gate.control[0] if len(gate.control) == 1 else tuple(gate.control)
+            target_circuit *= GATE_SYMPY[gate.name](control, gate.target[0], gate.parameter)
         else:
             raise ValueError(f"Gate '{gate.name}' not supported on backend SYMPY")
 
